@@ -214,8 +214,10 @@ def bin_case(uname, A, B, opname, rng, mism, hows=None):
     if opname in ALT_REL and rng.random() < 0.3:
         sym = ALT_REL[opname]
     lines = la + lb + ["A %s B" % sym]
-    return mk([kind, opname, flag(ha), flag(hb), [vsx(v) for v in A], [vsx(v) for v in B]], lines,
-              dict(stream="operator", elemkind=uname, op=opname, built=ha + "/" + hb), runs)
+    c = mk([kind, opname, flag(ha), flag(hb), [vsx(v) for v in A], [vsx(v) for v in B]], lines,
+           dict(stream="operator", elemkind=uname, op=opname, built=ha + "/" + hb), runs)
+    c["meta"] = ("bin", uname, list(A), list(B), opname, mism, (ha, hb))
+    return c
 
 
 def lit_case(uname, A, rng, mism, how=None):
@@ -226,15 +228,19 @@ def lit_case(uname, A, rng, mism, how=None):
     else:
         l, h = define("A", A, how, rng)
         lines = l + ["A"]
-    return mk(["lit", flag(h), [vsx(v) for v in A]], lines, dict(stream="build", elemkind=uname, op="build", built=h), runs)
+    c = mk(["lit", flag(h), [vsx(v) for v in A]], lines, dict(stream="build", elemkind=uname, op="build", built=h), runs)
+    c["meta"] = ("lit", uname, list(A), mism, h)
+    return c
 
 
 def mem_case(uname, x, A, neg, rng, mism, how=None):
     runs = RUNS if mism else 1
     la, ha = define("A", A, how or pick_how(rng), rng)
     lines = la + ["%s %s A" % (vsrc(x), "∉" if neg else "∈")]
-    return mk(["mem", 1 if neg else 0, flag(ha), vsx(x), [vsx(v) for v in A]], lines,
-              dict(stream="membership", elemkind=uname, op="notin" if neg else "in", built=ha), runs)
+    c = mk(["mem", 1 if neg else 0, flag(ha), vsx(x), [vsx(v) for v in A]], lines,
+           dict(stream="membership", elemkind=uname, op="notin" if neg else "in", built=ha), runs)
+    c["meta"] = ("mem", uname, x, list(A), neg, mism, ha)
+    return c
 
 
 # ---------------------------------------------------------------- comprehensions
@@ -452,4 +458,26 @@ def generate(tier, rng):
 
 
 def shrink(case):
-    return []
+    """drop one written element of an operand (same construction, same operator)"""
+    import random
+    m = case.get("meta")
+    if not m:
+        return
+    rng = random.Random(0)
+    def keep(c):
+        c["tags"] = dict(case.get("tags", {}))
+        return c
+    if m[0] == "bin":
+        _, u, A, B, op, mism, hows = m
+        for i in range(len(A)):
+            yield keep(bin_case(u, A[:i] + A[i + 1:], B, op, rng, mism, hows=hows))
+        for i in range(len(B)):
+            yield keep(bin_case(u, A, B[:i] + B[i + 1:], op, rng, mism, hows=hows))
+    elif m[0] == "lit":
+        _, u, A, mism, h = m
+        for i in range(len(A)):
+            yield keep(lit_case(u, A[:i] + A[i + 1:], rng, mism, how=h))
+    elif m[0] == "mem":
+        _, u, x, A, neg, mism, h = m
+        for i in range(len(A)):
+            yield keep(mem_case(u, x, A[:i] + A[i + 1:], neg, rng, mism, how=h))
